@@ -11,6 +11,7 @@ under both settings of general.fits.flip_for_ds9.
 """
 from __future__ import annotations
 
+import atexit
 import gc
 import os
 import shutil
@@ -29,6 +30,7 @@ def _root():
     global _ROOT
     if _ROOT is None or not os.path.isdir(_ROOT):
         _ROOT = tempfile.mkdtemp(prefix="verif_c16_")
+        atexit.register(shutil.rmtree, _ROOT, ignore_errors=True)
     return _ROOT
 
 
@@ -273,7 +275,7 @@ class C16(PropertyCheck):
                    "noise": qlist([Fraction(v, 4) for v in gen.distinct_ints(rng, h * w, signed=False)]),
                    "psf_shape": [kh, kw], "scales": self._scales(rng),
                    "path_style": rng.choice(["abs", "rel", "bare", "nested"]),
-                   "with_psf": rng.random() < 0.8}
+                   "with_psf": rng.random() < 0.8, "victim": rng.choice(["data", "psf", "noise"])}
         # 6. histories of output_to_fits calls
         for _ in range(80 if tier == "quick" else 800):
             yield self._history_case(rng)
@@ -436,6 +438,14 @@ class C16(PropertyCheck):
         npth = self._paths(sb, st, "noise_map.fits")
         pp = self._paths(sb, st, "psf.fits") if psf is not None else None
         im.output_to_fits(data_path=dp, psf_path=pp, noise_map_path=npth)
+        # second call without overwrite: only the `victim` file still exists, so the call must fail
+        # at exactly that component (data, psf, noise map are written in this order)
+        victim = case.get("victim", "data")
+        if victim == "psf" and psf is None:
+            victim = "data"
+        for name, pth in (("data", dp), ("psf", pp), ("noise", npth)):
+            if pth is not None and name != victim:
+                os.remove(pth)
         second = None
         try:
             im.output_to_fits(data_path=dp, psf_path=pp, noise_map_path=npth)
@@ -541,9 +551,14 @@ class C16(PropertyCheck):
                 reqs.append({"op": "c16.array2d", "mask": {"h": kh, "w": kw, "bits": "0" * (kh * kw)},
                              "values": qlist([v for r in _unit_kernel(kh, kw) for v in r]),
                              "scales": case["scales"], "flip": case["flip"]})
-            # the second (non-overwriting) write: a one-step history on an existing file
-            reqs.append({"op": "c16.fs_history", "files": [[["data.fits"], 1]],
-                         "steps": [{"path": ["data.fits"], "overwrite": False, "content": 2}]})
+            # the second (non-overwriting) call: a history on a state where only the victim file exists
+            victim = case.get("victim", "data")
+            if victim == "psf" and not case["with_psf"]:
+                victim = "data"
+            order = ["data"] + (["psf"] if case["with_psf"] else []) + ["noise"]
+            reqs.append({"op": "c16.fs_history", "files": [[[victim + ".fits"], 1]],
+                         "steps": [{"path": [n + ".fits"], "overwrite": False, "content": 2 + i}
+                                   for i, n in enumerate(order)]})
             return reqs
         if kind == "fs_history":
             return [{"op": "c16.fs_history", "dirs": case["dirs"], "files": case["files"],
@@ -564,7 +579,7 @@ class C16(PropertyCheck):
         if kind in ("array1d", "mask1d", "multi_hdu"):
             return r
         if kind == "imaging":
-            out = {"second_write": responses[-1]["ok"]["results"][0],
+            out = {"second_write": next((r for r in responses[-1]["ok"]["results"] if r is not None), None),
                    "data": responses[0]["ok"]["from_file"], "noise": responses[1]["ok"]["from_file"]}
             if case["with_psf"]:
                 out["psf"] = responses[2]["ok"]["from_file"]
@@ -804,11 +819,13 @@ class C16(PropertyCheck):
     def theorems_for(self, case):
         kind = case["kind"]
         return {
-            "fs_history": ["C16.output_overwrite_semantics", "C16.output_error_iff", "C16.bare_name_cwd"],
+            "fs_history": ["C16.history_semantics", "C16.output_overwrite_semantics", "C16.output_error_iff",
+                           "C16.bare_name_cwd"],
             "mask2d": ["C16.mask2d_hdu_roundtrip", "C16.mask2d_file_roundtrip"],
             "array1d": ["C16.array1d_roundtrip"], "mask1d": ["C16.mask1d_roundtrip"],
         }.get(kind, ["C16.array2d_hdu_roundtrip", "C16.array2d_file_roundtrip", "C16.scales_header_roundtrip",
-                      "C16.flip_undone", "C16.output_is_flipped", "C16.masked_pixels_read_zero"])
+                      "C16.flip_undone", "C16.output_is_flipped", "C16.masked_pixels_read_zero",
+                      "C16.output_to_fits_then_from_fits"])
 
     def sample_view(self, case):
         return {k: v for k, v in case.items() if not k.startswith("_")}
